@@ -15,6 +15,11 @@
      aos.<e>/<e>/...                     add_outputs(vec), element = <value>,<script>
      hi.<flag>                           the public hash_inputs(flag): first / third field = checksum of the 32 bytes
      go                                  get_outpoints()
+     fk                                  keep a second object: other = tx.clone()      sw   swap tx and the other object
+     new.<version>.<locktime> / def      continue with Transaction::new(..) / Transaction::default()
+     fb / fh / fj / fc                   continue with from_bytes(to_bytes()) / from_hex(to_hex()) / from_json_string(to_json_string())
+                                         / from_compact_bytes(to_compact_bytes()) of the current object (cache must be empty again;
+                                         contents unchanged: properties C01 / C18; the histories contain no coinbase input)
    Result: "OK:" followed by six ";"-separated fields per step:
      preimage (n = not a sighash step, E = refused, else <len>:<checksum>) ; serialisation <len>:<checksum> ;
      preimage of a fresh from_bytes(to_bytes()) copy (n / E / X = the copy does not parse / <len>:<checksum>) ;
@@ -40,7 +45,8 @@ Inductive xop :=
 | XVer (v : N) | XLock (v : N) | XClone
 | XSig (f idx : N) (sub : list bit) (v : N)
 | XSign (f idx : N) (sub : list bit) (v : N)
-| XIns (l : list txin) | XOuts (l : list txout) | XHashIn (f : N) | XGetOutpoints.
+| XIns (l : list txin) | XOuts (l : list txout) | XHashIn (f : N) | XGetOutpoints
+| XFork | XSwap | XNew (v lt : N) | XDefault | XReparse (kind : N).
 
 Definition parse_in (txid vo scr sq : string) : option txin :=
   match expand txid, N_of_dec vo, expand scr, N_of_dec sq with
@@ -81,6 +87,14 @@ Definition parse_op (s : string) : option xop :=
   | ["aos"; body] => option_map XOuts (parse_elems pe_out body)
   | ["hi"; f] => match N_of_dec f with Some f' => if is_sighash f' then Some (XHashIn f') else None | None => None end
   | ["go"] => Some XGetOutpoints
+  | ["fk"] => Some XFork
+  | ["sw"] => Some XSwap
+  | ["new"; v; lt] => match N_of_dec v, N_of_dec lt with Some a, Some b => Some (XNew a b) | _, _ => None end
+  | ["def"] => Some XDefault
+  | ["fb"] => Some (XReparse 0)
+  | ["fh"] => Some (XReparse 1)
+  | ["fj"] => Some (XReparse 2)
+  | ["fc"] => Some (XReparse 3)
   | ["ai"; a; b; c; d] => option_map (XIn 0 0) (parse_in a b c d)
   | ["pi"; a; b; c; d] => option_map (XIn 1 0) (parse_in a b c d)
   | ["ii"; k; a; b; c; d] => match N_of_dec k with Some n => option_map (XIn 2 n) (parse_in a b c d) | None => None end
@@ -130,6 +144,23 @@ Definition to_op (s : state) (x : xop) : op :=
   | XOuts l => AddOutputs l
   | XHashIn f => HashInputsOp f
   | XGetOutpoints => GetOutpointsOp
+  | XFork | XSwap | XNew _ _ | XDefault | XReparse _ => CloneOp     (* handled by `special` below *)
+  end.
+
+(* steps that replace the object instead of calling a method on it: every one of them yields a value whose cache is
+   a copy (clone) or empty (constructors, parsers) *)
+Definition special (x : xop) (s : state) (other : option state) : option (outcome (state * option state)) :=
+  match x with
+  | XFork => Some (Ok (s, Some s))
+  | XSwap => Some (Ok (match other with Some o => (o, Some s) | None => (s, None) end))
+  | XNew v lt => Some (Ok (fresh (tx_new v lt), other))
+  | XDefault => Some (Ok (fresh (tx_new 2 0), other))
+  | XReparse k =>
+      if (k <? 2)%N then
+        Some (match tx_from_bytes (tx_bytes (st_tx s)) with
+              | Ok t' => Ok (fresh t', other) | Err => Err | Panic => Panic end)
+      else Some (Ok (fresh (st_tx s), other))
+  | _ => None
   end.
 
 Definition show_state_tail (s : state) : string :=
@@ -165,23 +196,30 @@ Definition spec_result (t : tx) (o : op) : string :=
   | _ => "n"
   end.
 
-(* returns (impl fields, spec fields) per step, or None on panic *)
-Fixpoint run_history (xs : list xop) (s : state) : option (list string * list string) :=
+(* returns (impl fields, spec fields) per step; Panic = a step panicked, Err = a re-parse was refused *)
+Fixpoint run_history (xs : list xop) (s : state) (other : option state) : outcome (list string * list string) :=
   match xs with
-  | [] => Some ([], [])
+  | [] => Ok ([], [])
   | x :: r =>
-      let o := to_op s x in
-      match step H_impl s o with
-      | Ok (s', out) =>
-          let p := match out with Some res => show_out o res | None => "n" end in
-          let impl := p +++ ";" +++ ck (tx_bytes (st_tx s')) +++ ";" +++ fresh_result (st_tx s') o +++ ";" +++ show_slots s' in
-          let sp := spec_result (st_tx s') o in
-          let spec := sp +++ ";*;" +++ sp +++ ";*;*;*" in
-          match run_history r s' with
-          | Some (is, ss) => Some (impl :: is, spec :: ss)
-          | None => None
+      match special x s other with
+      | Some (Ok (s', other')) =>
+          let impl := "n;" +++ ck (tx_bytes (st_tx s')) +++ ";n;" +++ show_slots s' in
+          do rest <- run_history r s' other'; let '(is, ss) := rest in
+          Ok (impl :: is, "n;*;n;*;*;*" :: ss)
+      | Some Err => Err
+      | Some Panic => Panic
+      | None =>
+          let o := to_op s x in
+          match step H_impl s o with
+          | Ok (s', out) =>
+              let p := match out with Some res => show_out o res | None => "n" end in
+              let impl := p +++ ";" +++ ck (tx_bytes (st_tx s')) +++ ";" +++ fresh_result (st_tx s') o +++ ";" +++ show_slots s' in
+              let sp := spec_result (st_tx s') o in
+              let spec := sp +++ ";*;" +++ sp +++ ";*;*;*" in
+              do rest <- run_history r s' other; let '(is, ss) := rest in
+              Ok (impl :: is, spec :: ss)
+          | _ => Panic
           end
-      | _ => None
       end
   end.
 
@@ -190,9 +228,10 @@ Definition run_hist (txb : bytes) (ops : string) : string :=
   | Ok t =>
       match parse_ops (if String.eqb ops "" then [] else split "_" ops) with
       | Some xs =>
-          match run_history xs (fresh t) with
-          | Some (is, ss) => out3 ("OK:" +++ join ";" is) ("OK:" +++ join ";" ss) "-"
-          | None => out3 "PANIC" "-" "-"
+          match run_history xs (fresh t) None with
+          | Ok (is, ss) => out3 ("OK:" +++ join ";" is) ("OK:" +++ join ";" ss) "-"
+          | Panic => out3 "PANIC" "-" "-"
+          | Err => out3 "ERR" "-" "-"
           end
       | None => "BADARG"
       end
